@@ -439,6 +439,29 @@ pub fn cargotoml_main(args: &[String]) {
         }
         println!("DEPS {name} {}", deps.join("|"));
     }
+    // rebuilding into the same directory after the dependency set changed (same manifest length): the manifest must follow
+    {
+        let dir = base.join("rebuild");
+        let mut g1 = ProjectGenerator::new(&dir, "demo", true);
+        let _ = g1.add_rust_crate("regex");
+        let _ = g1.generate("fn main() {}\n");
+        let mut g2 = ProjectGenerator::new(&dir, "demo", true);
+        let _ = g2.add_rust_crate("bytes");
+        let _ = g2.generate("fn main() {}\n");
+        let text = std::fs::read_to_string(dir.join("Cargo.toml")).unwrap_or_default();
+        if text.contains("bytes = ") && !text.contains("regex = ") {
+            println!("REBUILD ok");
+        } else {
+            println!("REBUILD stale: the manifest of the second build still declares the first build's crates");
+        }
+        // package / binary naming for a name with a hyphen
+        let dirh = base.join("hyphen");
+        let gh = ProjectGenerator::new(&dirh, "hello-world", true);
+        let _ = gh.generate("fn main() {}\n");
+        let t = std::fs::read_to_string(dirh.join("Cargo.toml")).unwrap_or_default();
+        let names: Vec<&str> = t.lines().filter(|l| l.starts_with("name = ")).collect();
+        println!("NAMES {}", names.join("|"));
+    }
     // multi-file project: the `mod` declarations of main.rs
     {
         let dir = base.join("multi");
